@@ -70,7 +70,7 @@ impl Method for HMA {
 		#[allow(clippy::cast_possible_truncation)]
 		#[allow(clippy::cast_sign_loss)]
 		match length {
-			0 | 1 => Err(Error::WrongMethodParameters),
+			0 | 1 | PeriodType::MAX => Err(Error::WrongMethodParameters),
 			length => Ok(Self {
 				wma1: WMA::new(length / 2, value)?,
 				wma2: WMA::new(length, value)?,
